@@ -271,7 +271,92 @@ def m4_reload(S):
     S.prove(ctx, ob, "early_return_loses_nothing", facts + [cond_of(early), read_by_finalize], attached)
 
 
-OBLIGATIONS = [m1_finalize, m2_verifier_vs_finalize, m3_init, m4_reload]
+def m5_reload_dataflow(S):
+    """one iteration of the reload loop: the row inserted at height bn is the UNION of the block's and its uncles'
+    proposal ids of the main-chain block stored at height bn"""
+    ob = "C20.m5"
+    ctx = S.ctx()
+    c = ctx.int("w.0", "u64").t
+    f = ctx.int("w.1", "u64").t
+    dfront = ctx.int("detached_front", "u64")
+    has_att = ctx.bool("has_attached")
+    att_back = ctx.int("attached_back", "u64")
+    bn = ctx.int("bn", "u64")
+    wpre = [T.le(1, c), T.le(c, f), T.lt(f, WMAX)]
+    state = {}
+
+    def range_new(ex, callee, args, dty):
+        ex.log.append(("load_range", callee, [E.snapshot(ex, a) for a in args], list(ex.pc)))
+        return OpaqueV("range", dty)
+
+    def it_next(ex, callee, args, dty):
+        n = len([e for e in ex.log if e[0] == "next"])
+        ex.log.append(("next", callee, [], list(ex.pc)))
+        if n == 0:
+            return mk_option(True, bn, dty)
+        return mk_option(False, None, dty)
+
+    def get_block_hash(ex, callee, args, dty):
+        a = deref(ex, args[-1])
+        ex.log.append(("get_block_hash", callee, [a], list(ex.pc)))
+        return mk_option(True, OpaqueV("hash_at_bn", "Byte32"), dty)
+
+    def get_block(ex, callee, args, dty):
+        a = deref(ex, args[-1])
+        return mk_option(True, OpaqueV("block_of." + getattr(a, "name", "?"), "BlockView"), dty)
+
+    def union_ids(ex, callee, args, dty):
+        a = deref(ex, args[0])
+        return OpaqueV("union_ids." + getattr(a, "name", "?"), dty)
+
+    def insert(ex, callee, args, dty):
+        ex.log.append(("insert", callee, [E.snapshot(ex, a) for a in args[1:]], list(ex.pc)))
+        return BoolV(True)
+
+    ctx.env = list(E.LOGGING_OFF) + [
+        (E.rx(r"ForkChanges::has_detached"), E.const_bool(True)),
+        (E.rx(r"Consensus::tx_proposal_window"), lambda ex, cal, a, d: AggV((IntV(c, "u64"), IntV(f, "u64")), "ProposalWindow")),
+        (E.rx(r"Shared::consensus|Shared::store"), E.opaque_call()),
+        (E.rx(r"ForkChanges::detached_blocks|ForkChanges::attached_blocks"), E.opaque_call()),
+        (E.rx(r"VecDeque::<.*>::front"), lambda ex, cal, a, d: mk_option(True, OpaqueV("dblk", "BlockView"), d)),
+        (E.rx(r"VecDeque::<.*>::back"), lambda ex, cal, a, d: mk_option(has_att.t, OpaqueV("ablk", "BlockView"), d)),
+        (E.rx(r"BlockView::header"), lambda ex, cal, a, d: OpaqueV("hdr_" + deref(ex, a[0]).name, "HeaderView")),
+        (E.rx(r"HeaderView::number"), lambda ex, cal, a, d: dfront if deref(ex, a[0]).name == "hdr_dblk" else att_back),
+        (E.rx(r"RangeInclusive::<u64>::new"), range_new),
+        (E.rx(r"IntoIterator>::into_iter"), lambda ex, cal, a, d: a[0]),
+        (E.rx(r"RangeInclusive<u64> as Iterator>::next"), it_next),
+        (E.rx(r"get_block_hash"), get_block_hash),
+        (E.rx(r"ChainStore>::get_block$|::get_block$"), get_block),
+        (E.rx(r"BlockView::union_proposal_ids"), union_ids),
+        (E.rx(r"ProposalTable::insert"), insert),
+        (E.rx(r"max_level|__private_api|fmt::rt::|Arguments"), E.opaque_call()),
+    ]
+    ctx.uninterpreted_unknown_calls = True
+    fn = S.fn("ConsumeUnverifiedBlockProcessor::reload_proposal_table")
+    me = OpaqueV("proc", "ConsumeUnverifiedBlockProcessor")
+    fork = OpaqueV("fork", "ForkChanges")
+    facts = wpre + [T.ge(dfront.t, 2), T.implies(has_att.t, T.ge(att_back.t, dfront.t)), T.lt(att_back.t, U64)]
+    paths = S.run(ctx, fn, [ctx.ref_to(me), ctx.ref_to(fork)], allow=("panic", "return"), assume=facts)
+    S.prove(ctx, ob, "no_panic", facts, T.not_(cond_of(panics(paths))))
+    seen = 0
+    for k, p in enumerate(returns(paths)):
+        ins = [e for e in p.log if e[0] == "insert"]
+        if not ins:
+            continue
+        seen += 1
+        if len(ins) != 1:
+            raise Inconclusive("more than one insert in one iteration")
+        num, ids = ins[0][2]
+        hashes = [e for e in p.log if e[0] == "get_block_hash"]
+        ok_flow = isinstance(ids, OpaqueV) and ids.name == "union_ids.block_of.hash_at_bn" and len(hashes) == 1
+        S.prove(ctx, ob, f"path{k}_row_is_union_of_block_and_uncle_proposals_of_the_block_at_bn", facts + [p.cond()], bool(ok_flow))
+        S.prove(ctx, ob, f"path{k}_row_inserted_at_the_iterated_height", facts + [p.cond()],
+                T.and_(T.eq(as_int(num), bn.t), T.eq(as_int(hashes[0][2][0]), bn.t)) if hashes else False)
+    if seen == 0:
+        raise Inconclusive("loop body not reached")
+
+
+OBLIGATIONS = [m1_finalize, m2_verifier_vs_finalize, m3_init, m4_reload, m5_reload_dataflow]
 
 ENGINE = "M"
 LEVEL = "other"
